@@ -573,11 +573,16 @@ func (client *Client) send(ctx context.Context, call *Call) {
 
 	data, err := codec.Encode(call.Args)
 	if err != nil {
+		// complete the call only if it is still pending: Close or the reader may have
+		// failed (and signalled) it while the arguments were being encoded
 		client.mutex.Lock()
+		call = client.pending[seq]
 		delete(client.pending, seq)
 		client.mutex.Unlock()
-		call.Error = err
-		call.done()
+		if call != nil {
+			call.Error = err
+			call.done()
+		}
 		return
 	}
 	if len(data) > 1024 && client.option.CompressType != protocol.None {
